@@ -339,11 +339,28 @@ def write_replay(prop, idx, run, viol):
     return path
 
 
-def judge(prop, tier, seed, runs, meta, t0, floors=None, extra_cov=None):
+class PseudoRun:
+    """Stands for an auxiliary (non-monitor) step in violation reports."""
+
+    def __init__(self, label):
+        self.label = label
+        self.variant = "aux"
+        self.monitor = label
+        self.args = []
+        self.tool = None
+        self.miri_flags = None
+
+    def command(self):
+        return [self.label]
+
+
+def judge(prop, tier, seed, runs, meta, t0, floors=None, extra_cov=None, extra_viols=None, extra_inconclusive=None):
     """Assemble verdict + evidence. Returns exit code."""
     known = [k for k in load_known() if k.get("property") == prop]
     violations = []   # (sig, run, viol)
-    inconclusive = []
+    inconclusive = list(extra_inconclusive or [])
+    for ev in (extra_viols or []):
+        violations.append((ev["sig"], PseudoRun("compile-fail-corpus"), ev))
     foreign = 0
     for r in runs:
         for v in r.viols:
@@ -494,3 +511,50 @@ def judge(prop, tier, seed, runs, meta, t0, floors=None, extra_cov=None):
     if inconclusive:
         return 2
     return 0
+
+
+# ------------------------------------------------------------------------------------------
+# auxiliary: compile-fail corpus for the static clause of C12 (outside the runtime family;
+# reported separately in the evidence)
+BORROWCK_CODES = ("E0597", "E0505", "E0515", "E0716", "E0499", "E0502", "E0506", "E0713", "E0521")
+
+
+def compile_fail_corpus(variant="std-debug"):
+    """Returns (results, violations, inconclusive). Each escaping program must fail with a
+    borrow-check error, its non-escaping twin must compile."""
+    import glob
+    import tempfile
+    build(variant)
+    deps = os.path.join(variant_dir(variant), "debug", "deps")
+    rlibs = sorted(glob.glob(os.path.join(deps, "libvm_memory-*.rlib")), key=os.path.getmtime)
+    if not rlibs:
+        return [], [], ["compile-fail corpus: no vm_memory rlib found in %s" % deps]
+    rlib = rlibs[-1]
+    corpus = os.path.join(HARNESS, "compile_fail")
+    results, viols, inconc = [], [], []
+    names = sorted(set(f[:-7] for f in os.listdir(corpus) if f.endswith("_bad.rs")))
+    tmpd = tempfile.mkdtemp(prefix="vmv-cf-", dir=BUILD)
+    try:
+        for n in names:
+            out = {}
+            for kind in ("ok", "bad"):
+                src = os.path.join(corpus, "%s_%s.rs" % (n, kind))
+                p = subprocess.run(["rustc", "--edition", "2021", "--crate-type", "bin", "--emit=metadata",
+                                    "-o", os.path.join(tmpd, n + "_" + kind), "-L", "dependency=" + deps,
+                                    "--extern", "vm_memory=" + rlib, "--error-format=short", src],
+                                   stdout=subprocess.PIPE, stderr=subprocess.STDOUT, text=True, timeout=300)
+                codes = sorted(set(re.findall(r"error\[(E\d+)\]", p.stdout)))
+                out[kind] = dict(rc=p.returncode, codes=codes, tail=p.stdout.strip().splitlines()[-3:])
+            results.append(dict(program=n, ok_compiles=out["ok"]["rc"] == 0, bad_error_codes=out["bad"]["codes"]))
+            if out["ok"]["rc"] != 0:
+                inconc.append("compile-fail corpus: non-escaping twin %s_ok.rs does not compile (%s)" % (n, out["ok"]["tail"]))
+                continue
+            if out["bad"]["rc"] == 0:
+                viols.append(dict(sig="C12/static/escaping-accessor-compiles/%s" % n, case=None,
+                                  detail=dict(program=os.path.join(corpus, n + "_bad.rs"),
+                                              meaning="a program that lets an accessor outlive its parent compiled")))
+            elif not any(c in BORROWCK_CODES for c in out["bad"]["codes"]):
+                inconc.append("compile-fail corpus: %s_bad.rs fails, but not with a borrow-check error (%s)" % (n, out["bad"]["codes"]))
+    finally:
+        shutil.rmtree(tmpd, ignore_errors=True)
+    return results, viols, inconc
